@@ -56,9 +56,30 @@ def costs_of(p):
 
 
 def build(cfg):
-    """Construct the schedule object a cfg describes (stdout captured)."""
+    """Construct the schedule object a cfg describes (stdout captured).
+
+    ``p["call"]`` (optional) selects an unusual but legal calling form:
+    'np' passes every integral parameter as ``numpy.int64``, 'kw' passes the
+    positional-or-keyword parameters by keyword, 'npkw' does both."""
     cs = lib()
     c, p, N = cfg["cls"], cfg["p"], cfg["N"]
+    form = p.get("call") or ""
+    if "np" in form:
+        import numpy
+
+        def i(v):
+            return numpy.int64(v)
+    else:
+        def i(v):
+            return v
+
+    def mk(cls, names, vals, **kw):
+        vals = [i(v) for v in vals]
+        if "kw" in form:
+            kw = dict(zip(names, vals), **kw)
+            vals = []
+        return cls(*vals, **kw)
+
     with contextlib.redirect_stdout(io.StringIO()):
         if c == "None":
             return cs.NoneCheckpointSchedule()
@@ -72,28 +93,39 @@ def build(cfg):
                 move = numpy.bool_(True)
             return cs.SingleDiskStorageSchedule(move_data=move)
         if c == "Multistage":
-            return cs.MultistageCheckpointSchedule(
-                N, p["r"], p["d"], trajectory=p["traj"])
+            return mk(cs.MultistageCheckpointSchedule,
+                      ("max_n", "snapshots_in_ram", "snapshots_on_disk"),
+                      (N, p["r"], p["d"]), trajectory=p["traj"])
         if c == "Mixed":
-            return cs.MixedCheckpointSchedule(
-                N, p["s"], storage=storage(p["storage"]))
+            return mk(cs.MixedCheckpointSchedule, ("max_n", "snapshots"),
+                      (N, p["s"]), storage=storage(p["storage"]))
         if c == "TwoLevel":
-            return cs.TwoLevelCheckpointSchedule(
-                p["period"], p["b"], binomial_storage=storage(p["storage"]),
-                binomial_trajectory=p["traj"])
+            return mk(cs.TwoLevelCheckpointSchedule,
+                      ("period", "binomial_snapshots"), (p["period"], p["b"]),
+                      binomial_storage=storage(p["storage"]),
+                      binomial_trajectory=p["traj"])
         kw = {k: fl(p[k]) for k in ("uf", "ub", "wd", "rd") if k in p}
         if kw == {"uf": 1.0, "ub": 1.0, "wd": 2.0, "rd": 2.0}:
             # the documented default cost vector: rely on the constructor's
             # own defaults, as most callers do
             kw = {}
+        elif p.get("costs_int") and all(v == int(v) for v in kw.values()):
+            # integral costs passed as Python ints, as the documentation's
+            # examples do
+            kw = {k: int(v) for k, v in kw.items()}
         if c == "Revolve":
-            return cs.Revolve(N, p["s"], **kw)
+            return mk(cs.Revolve, ("max_n", "snapshots_in_ram"),
+                      (N, p["s"]), **kw)
         if c == "DiskRevolve":
-            return cs.DiskRevolve(N, p["s"], **kw)
+            return mk(cs.DiskRevolve, ("max_n", "snapshots_in_ram"),
+                      (N, p["s"]), **kw)
         if c == "PeriodicDiskRevolve":
-            return cs.PeriodicDiskRevolve(N, p["s"], **kw)
+            return mk(cs.PeriodicDiskRevolve, ("max_n", "snapshots_in_ram"),
+                      (N, p["s"]), **kw)
         if c == "HRevolve":
-            return cs.HRevolve(N, p["s"], p["d"], **kw)
+            return mk(cs.HRevolve,
+                      ("max_n", "snapshots_in_ram", "snapshots_on_disk"),
+                      (N, p["s"], p["d"]), **kw)
     raise KeyError(c)
 
 
@@ -353,7 +385,11 @@ class World:
             if s.finalized or not is_online(s.cls):
                 self.fault("repeat_finalize")
             try:
-                s.sched.finalize(s.N)
+                nfin = s.N
+                if "np" in (s.cfg["p"].get("call") or ""):
+                    import numpy
+                    nfin = numpy.int64(nfin)
+                s.sched.finalize(nfin)
                 s.finalized = True
                 outcome.append("finalize:ok")
             except Exception as e:                  # noqa: BLE001
